@@ -249,6 +249,53 @@ def values_in_range(f, lo, hi, closed):
     return sorted(out)
 
 
+class _Any:
+    def __repr__(self):
+        return "ANY"
+
+
+ANY = _Any()      # an element on which the properties are silent
+
+
+def slice_stat(f, stat, a, b, icl):
+    g = restrict(f, a, b)
+    has = bool(finite_defined(g))
+    if stat == "mean":
+        return mean(g) if has else ANY
+    if stat == "integral":
+        return integral(g) if has else ANY
+    if stat == "median":
+        return quantile_mid(g, F(1, 2)) if has else ANY
+    if stat == "mode":
+        return ("oneof", mode_set(g)) if has else ANY
+    vals = values_in_range(f, a, b, icl)
+    if not vals:
+        return None
+    return min(vals) if stat == "min" else max(vals)
+
+
+def reduce_vals(g, col):
+    if any(v is None for v in col):
+        return None
+    if g == "sum":
+        return sum(col, F(0))
+    if g == "mean":
+        return sum(col, F(0)) / len(col)
+    if g == "min":
+        return min(col)
+    if g == "max":
+        return max(col)
+    if g == "median":
+        sv = sorted(col)
+        n = len(sv)
+        return sv[n // 2] if n % 2 else (sv[n // 2 - 1] + sv[n // 2]) / 2
+    if g == "logical_or":
+        return _b(any(v != 0 for v in col))
+    if g == "logical_and":
+        return _b(all(v != 0 for v in col))
+    raise ValueError(g)
+
+
 # ----------------------------------------------------------------------------- program semantics
 class Oracle:
     def __init__(self):
@@ -348,6 +395,42 @@ class Oracle:
             f = R[s["a"]]
             g = PF([p + s["d"] for p in f.pts], f.vals, f.closed)
             return merge(f, g, OPS["sub"], f.closed)
+        if k == "resample":
+            f = R[s["a"]]
+            ivs, icl = s["ivs"], s["icl"]
+            for (a, b), (c, d) in zip(ivs, ivs[1:]):
+                if b > c or (icl == "both" and b == c) or not a < b or not c < d:
+                    return None
+            if any(b != c for (_, b), (c, _) in zip(ivs, ivs[1:])):
+                return None          # the property speaks about slices that tile their span
+            vals = []
+            for a, b in ivs:
+                v = slice_stat(f, s["stat"], a, b, icl)
+                if isinstance(v, tuple):
+                    if len(v[1]) != 1:
+                        return None
+                    v = v[1][0]
+                if v is ANY:
+                    return None      # the statistic of this slice is outside its precondition
+                vals.append(v)
+            g = PF([a for a, _ in ivs] + [ivs[-1][1]], [None] + vals + [None], f.closed)
+            lb, rb = ivs[0][0], ivs[-1][1]
+            pts = sorted(set(f.pts) | set(g.pts))
+            out = []
+            for i in range(len(pts) + 1):
+                left = pts[i - 1] if i > 0 else None
+                inside = left is not None and lb <= left < rb
+                out.append(g.piece_at(i, pts) if inside else f.piece_at(i, pts))
+            return PF(pts, out, f.closed)
+        if k == "agg":
+            ms = [R[m] for m in s["ms"]]
+            withsteps = [m for m in ms if m.has_steps()]
+            if any(m.closed != withsteps[0].closed for m in withsteps):
+                raise Mismatch()
+            closed = withsteps[0].closed if withsteps else ms[0].closed
+            pts = sorted(set().union(*[set(m.pts) for m in ms]))
+            vals = [reduce_vals(s["g"], [m.piece_at(i, pts) for m in ms]) for i in range(len(pts) + 1)]
+            return PF(pts, vals, closed)
         if k == "query":
             return self.query(s)
         return None
@@ -355,6 +438,61 @@ class Oracle:
     def query(self, s):
         f = self.regs[s["r"]]
         q = s["q"]
+        if q == "slicer":
+            out = [slice_stat(f, s["stat"], a, b, s["icl"]) for a, b in s["ivs"]]
+            if any(not a < b for a, b in s["ivs"]):
+                return None
+            if s["stat"] in ("median", "mode") and any(v is ANY for v in out):
+                return None          # the code raises for a slice without a finite defined piece
+            return {"t": "vals", "vals": out}
+        if q in ("cov", "corr"):
+            g = self.regs[s["b"]]
+            lo, hi, lag = s.get("lo"), s.get("hi"), s.get("lag", F(0))
+            if f.has_steps() and g.has_steps() and f.closed != g.closed:
+                return {"t": "err", "e": "closed"}
+            if lag != 0:
+                g = PF([p - lag for p in g.pts], g.vals, g.closed)
+                if s.get("clip", "pre") == "pre" and hi is not None:
+                    hi = hi - lag
+            if lo is None or hi is None or not lo < hi:
+                return None          # the property speaks about finite windows
+            both = merge(f, g, lambda x, y: None if x is None or y is None else F(1), f.closed)
+            f2 = restrict(merge(f, both, lambda x, y: x if y is not None else None, f.closed), lo, hi)
+            g2 = restrict(merge(g, both, lambda x, y: x if y is not None else None, f.closed), lo, hi)
+            fg = merge(f2, g2, OPS["mul"], f.closed)
+            if not finite_defined(fg):
+                return None
+            c = mean(fg) - mean(f2) * mean(g2)
+            if q == "cov":
+                return {"t": "val", "val": c}
+            vf, vg = var(f2), var(g2)
+            if vf * vg == 0:
+                return {"t": "val", "val": None}
+            return {"t": "val", "val": c * abs(c) / (vf * vg)}
+        if q == "rolling":
+            lo, hi, l, r = s.get("lo"), s.get("hi"), s["l"], s["rr"]
+            if not l < r:
+                return None
+            cl = restrict(f, lo, hi)
+            if not cl.pts:
+                return None
+            knots = sorted({p - l for p in cl.pts} | {p - r for p in cl.pts})
+            if lo is not None:
+                knots = [k for k in knots if k >= lo - l]
+            if hi is not None:
+                knots = [k for k in knots if k <= hi - r]
+            return {"t": "ser", "rows": [(k, mean(restrict(cl, k + l, k + r))) for k in knots]}
+        if q == "describe":
+            lo, hi = s.get("lo"), s.get("hi")
+            if lo is not None and hi is not None and not lo < hi:
+                return None
+            g = restrict(f, lo, hi)
+            if not finite_defined(g):
+                return None
+            allv = sorted(v for v in g.canon().vals if v is not None)
+            # min / max: the values the restricted function takes (its unbounded pieces included)
+            return {"t": "vals", "vals": [F(len(value_sums(g))), mean(g), var(g), allv[0]] +
+                    [quantile_mid(g, p / 100) for p in s["ps"]] + [allv[-1]]}
         if q == "limit":
             return {"t": "vals", "vals": [f.rlim(x) if s["side"] == "right" else f.llim(x) for x in s["xs"]]}
         if q == "sample":
@@ -456,6 +594,10 @@ def run_program(prog):
 
 # ----------------------------------------------------------------------------- comparison
 def _close(a, b, tol):
+    if a is ANY:
+        return True
+    if isinstance(a, tuple) and a and a[0] == "oneof":
+        return any(_close(v, b, tol) for v in a[1])
     if a is None or b is None:
         return a is None and b is None
     if isinstance(a, str) or isinstance(b, str):
